@@ -155,7 +155,7 @@ def containsSub (hay needle : Bytes) : Bool :=
   let n := needle.length
   (List.range (hay.length + 1 - n)).any fun i => (hay.drop i).take n == needle
 
-def runTwice (zone tiS toS lineS extS firstS secondS : String) : Result :=
+def runTwice (zone tiS toS lineS extS firstS secondS hint : String) : Result :=
   let env : Env := ⟨genTables, parseExt extS⟩
   match tmplOf env tiS, tmplOf env toS, unhexTok lineS, parseImpl firstS with
   | some ti, some to, some line, some first =>
@@ -185,8 +185,10 @@ def runTwice (zone tiS toS lineS extS firstS secondS : String) : Result :=
           if s2.ok && s2.bytes == first.bytes then none
           else
             -- attribution
+            -- by the model; when the model cannot compute the line, by the hint computed on the implementation
             let swallowed := match getRow env ti line with
               | .ok (row, none) => swallowedCast env to row
+              | .err .ext => hint == "sw=1"
               | _ => false
             if swallowed then some "swallowed-cast"
             else if containsSub line [0x2B, 0x32, 0x34, 0x3A, 0x36, 0x30] || containsSub line [0x2D, 0x32, 0x34, 0x3A, 0x36, 0x30] then some "offset-24-60"
@@ -194,9 +196,10 @@ def runTwice (zone tiS toS lineS extS firstS secondS : String) : Result :=
             else if s2.panic then some "panic"
             else if !s2.ok then some "emitted-line-rejected-by-its-own-template"
             else some "not-a-fixed-point"
-    -- when the model cannot compute the first pass at all (a stdlib answer outside its domain, e.g. an
-    -- instant beyond ±2^62 s) neither the comparison nor the attribution of a deviation is available
-    if ms1 == "err EXT" then ⟨"X", "model abstains on the first pass"⟩ else
+    -- when the model cannot compute the first pass (a stdlib answer outside its domain, or a caster the
+    -- translator could not read) the comparison is not available; the oracle still judges the
+    -- implementation, attributing through the hint
+    if ms1 == "err EXT" && p.isNone then ⟨"X", "model abstains on the first pass"⟩ else
     match d, p with
     | false, none => ⟨"S", ""⟩
     | true, none => if abstain then ⟨"X", "model abstains"⟩ else
